@@ -219,7 +219,7 @@ static void workload(){ run_jobs<float>("f32",3000,300000); run_jobs<double>("f6
 #define P_ARITH [](auto& x){ typedef typename std::remove_reference<decltype(x.a[0])>::type T; if constexpr(std::is_integral<T>::value && std::is_signed<T>::value && sizeof(T)>=4){ const T lim=(T)((T)1<<(sizeof(T)*4-2)); for(int i=0;i<4;i++){ x.a[i]=(T)(x.a[i]%lim); x.b[i]=(T)(x.b[i]%lim); } } }
 #define P_DIV [](auto& x){ typedef typename std::remove_reference<decltype(x.a[0])>::type T; nonzero(x.b); if constexpr(std::is_integral<T>::value && std::is_signed<T>::value) for(int i=0;i<4;i++) if(x.a[i]==std::numeric_limits<T>::min()) x.a[i]=(T)(std::numeric_limits<T>::min()+1+i); }
 #define P_DIVF [](auto& x){ }
-#define P_SHIFT [](auto& x){ typedef typename std::remove_reference<decltype(x.a[0])>::type T; typedef typename std::make_unsigned<T>::type U; for(int i=0;i<4;i++) x.b[i]=(T)((U)x.b[i]%(U)(sizeof(T)*8)); if constexpr(std::is_signed<T>::value && sizeof(T)>=4) for(int i=0;i<4;i++){ /* left shift of a signed value: keep the result representable */ int sh=(int)x.b[i]; if(sh>0){ T lim=(T)((T)1<<(sizeof(T)*8-2-sh>0? sizeof(T)*8-2-sh:0)); if(lim<1) lim=1; x.a[i]=(T)(x.a[i]%lim); if(x.a[i]<0) x.a[i]=(T)-x.a[i]; } } }
+#define P_SHIFT [](auto& x){ typedef typename std::remove_reference<decltype(x.a[0])>::type T; typedef typename std::make_unsigned<T>::type U; for(int i=0;i<4;i++) x.b[i]=(T)((U)x.b[i]%(U)(sizeof(T)*8)); if constexpr(std::is_signed<T>::value && sizeof(T)>=4) for(int i=0;i<4;i++){ /* left shift of a signed value: keep the result representable */ int sh=(int)x.b[i]; if(sh>0){ const int rem=(int)(sizeof(T)*8)-2-sh; T lim=(T)((T)1<<(rem>0? rem:0)); if(lim<1) lim=1; x.a[i]=(T)(x.a[i]%lim); if(x.a[i]<0) x.a[i]=(T)-x.a[i]; } } }
 #define P_SHIFTR [](auto& x){ typedef typename std::remove_reference<decltype(x.a[0])>::type T; typedef typename std::make_unsigned<T>::type U; for(int i=0;i<4;i++) x.b[i]=(T)((U)x.b[i]%(U)(sizeof(T)*8)); }
 #define P_NEG [](auto& x){ typedef typename std::remove_reference<decltype(x.a[0])>::type T; if constexpr(std::is_integral<T>::value && std::is_signed<T>::value) for(int i=0;i<4;i++) if(x.a[i]==std::numeric_limits<T>::min()||x.a[i]==std::numeric_limits<T>::max()) x.a[i]=(T)(i+5); }
 #define INTOPS(T,TN,FMT) BINOPS(add,+,T,TN,FMT,P_ARITH,QS_124) BINOPS(sub,-,T,TN,FMT,P_ARITH,QS_124) BINOPS(mul,*,T,TN,FMT,P_ARITH,QALL(T)) BINOPS(div,/,T,TN,FMT,P_DIV,QALL(T)) BINOPS(mod,%,T,TN,FMT,P_DIV,QS_123) \
